@@ -12,7 +12,7 @@
    agreement theorem for the domain they carve out is C23_agree_*_partial (added stage by stage). *)
 From Coq Require Import List NArith ZArith Bool String.
 From Cfg Require Import Model.Redis Model.MapApi23 Model.RedisMapBroker Model.MemMap23 Model.RedisMapServer
-                        Proofs.C23Witness.
+                        Model.RedisMapScripts Proofs.C23Witness Proofs.C23Lib Proofs.C23Core.
 Import ListNotations.
 Open Scope string_scope.
 
@@ -38,6 +38,8 @@ Theorem C23_key_collision_refuted : exists ops, redis_map_run cfP ops <> mem_map
 Proof. exists w_key_collision. exact key_collision_differs. Qed.
 Theorem C23_version_2p53_refuted : exists ops, redis_map_run cfP ops <> mem_map_run cfP ops.
 Proof. exists w_version_2p53. exact version_2p53_differs. Qed.
+Theorem C23_state_limit0_revision_refuted : exists ops, redis_map_run cfP ops <> mem_map_run cfP ops.
+Proof. exists w_state_limit0_rev. exact state_limit0_rev_differs. Qed.
 (* after Clear, ReadStream re-creates the channel with the SAME epoch (the node id) on Redis *)
 Theorem C23_clear_epoch_reuse_refuted :
   exists ops, nth 0 (redis_map_run cfP ops) MErr = nth 2 (redis_map_run cfP ops) MErr /\
@@ -48,3 +50,56 @@ Proof. exists w_clear_reuse. split; [exact clear_reuse_redis_same_epoch | exact 
    remove, ReadState (all / paged / position only / single key), ReadStream (since, limit, reverse) *)
 Example C23_agree_example : redis_map_run cfP w_agree = mem_map_run cfP w_agree.
 Proof. exact agree_example. Qed.
+
+(* ---------------------------------------------------------------------------------------------
+   STAGE A agreement theorem (core domain), by simulation (Proofs/C23Add.v, C23Read.v, C23Core.v).
+   Redis side: Model/RedisMapBroker.v over the SHALLOW scripts of Model/RedisMapScripts.v
+   (map_broker_add.lua, map_broker_stream_read.lua, map_broker_read_unordered.lua); the shallow
+   scripts are tied to the interpreted real scripts by evaluation on every explored case
+   (Harness/C23.v) -- that tie is testing.  Domain (all hypotheses are decidable and spelled out):
+     cfg_ok       persistent (mode 3), unordered channel; KeyTTL = 0, MetaTTL = 0; 0 < StreamSize < 2^31;
+                  0 <= StreamTTL < 2^31 ms
+     keys_okb     no two channel names collide through the key scheme (finding map-key-collision)
+     length ops <= StreamSize   neither side trims (finding map-stream-approx-trim beyond that)
+     run_ok       per operation, relative to the memory model's state when it is issued:
+       Publish    keyed or unkeyed; delta allowed; no idempotency key, version, key mode or
+                  ExpectedPosition (stage B); Score >= 0; new-epoch string without ':'
+       Remove     non-empty key, no idempotency key / ExpectedPosition, channel exists
+                  (finding map-remove-missing-channel)
+       ReadStream Limit < 2^31; the epoch both sides would create is the same string (epochs are
+                  compared up to renaming); existing channel: any since when forward
+                  (offset + 1 < 2^64), reverse only with 2 <= since <= top + 1 (findings
+                  map-reverse-since-one / -beyond-top); missing channel: no since
+                  (finding map-stream-missing-channel-since-epoch)
+       ReadState  Limit < 2^31; all entries (any page size; compared in key order), position only
+                  (Limit 0, then the Revision must be of the current epoch: finding
+                  map-state-limit0-revision) or a single key; missing channel: no key, no Revision
+                  (findings map-single-key-missing-channel, map-state-missing-channel-empty-revision)
+       Clear / time passing are outside (stage B). *)
+Theorem C23_agree_core_partial : forall cf ops,
+  cfg_ok cf = true -> keys_okb (chans ops) = true -> (Z.of_nat (List.length ops) <= mc_size cf)%Z ->
+  run_ok cf mm_init ops = true ->
+  rm_run map_shallow cf rinit ops = mem_map_run cf ops.
+Proof. exact agree_core. Qed.
+Print Assumptions C23_agree_core_partial.
+
+(* the domain is inhabited by a run that exercises every operation kind of the domain; on it the
+   shallow and the interpreted scripts give the same observables *)
+Definition w_core : list mop :=
+  [rd_state "a" "N0"; pub "a" "k1" "d1" "N1"; pub "a" "" "d2" "N2";
+   MPublish "a" "k2" (mkMP "" 0 "d3" true 0 "" 7 "" false None) "N3" 1000; pub "a" "k1" "d4" "N4";
+   rd_state "a" "N5"; MReadState "a" (Some (3%N, "N0")) 2 "" false "N6" "N6"; MReadState "a" (Some (3%N, "zz")) 2 "" false "N6" "N6";
+   MReadState "a" None 0 "k1" true "N7" "N7"; MReadState "a" None 0 "" false "N8" "N8";
+   MRemove "a" "k1" ro "N9" 1000; MRemove "a" "zz" ro "N10" 1000; rd_stream "a" "N11";
+   MReadStream "a" (Some (1%N, "N0")) 2 false "N12" "N12"; MReadStream "a" (Some (3%N, "N0")) (-1) true "N13" "N13";
+   MReadStream "a" (Some (3%N, "zz")) (-1) false "N13" "N13"; MReadStream "a" None 1 true "N14" "N14";
+   rd_stream "b" "N15"; pub "b" "k" "x" "N16"; MReadState "c" None 0 "" false "N17" "N17"; MRemove "b" "k" ro "N18" 1000;
+   rd_state "b" "N19"].
+Example C23_core_domain_example :
+  cfg_ok cfP = true /\ keys_okb (chans w_core) = true /\ run_ok cfP mm_init w_core = true /\
+  (Z.of_nat (List.length w_core) <= mc_size cfP)%Z /\
+  redis_map_run cfP w_core = rm_run map_shallow cfP rinit w_core /\
+  nth 12 (mem_map_run cfP w_core) MErr =
+    MStream [(1%N, "k1", "d1", false); (2%N, "", "d2", false); (3%N, "k2", "d3", false); (4%N, "k1", "d4", false);
+             (5%N, "k1", "", true)] 5 "N0".
+Proof. vm_compute. repeat split; try reflexivity; discriminate. Qed.
